@@ -367,6 +367,11 @@ func (p *parser) validateBinaryType(binaryExp *BinaryExpression) {
 	}
 
 	switch op {
+	case OP_EQ, OP_NOT_EQ:
+		if leftType == NONE_TYPE {
+			msg := fmt.Sprintf("%q cannot compare expressions without value", op)
+			p.appendErrorForToken(msg, tok)
+		}
 	case OP_PLUS:
 		if leftType != NUM_TYPE && leftType != STRING_TYPE && leftType.Name != ARRAY {
 			p.appendErrorForToken(`"+" takes num, string or array type, found `+leftType.String(), tok)
